@@ -96,6 +96,8 @@ type Exec struct {
 	floatOps  [][2]*Term
 	mapTypes  map[string]*types.Map
 	funcVals  map[string]Value
+	addrVals  map[string]*Addr      // first-class references of boxed interior addresses
+	boxedPtr  map[string]types.Type // static pointer type of pointer terms boxed into interfaces
 	curReach  *Term
 	funcAssumed map[string]bool
 	scanState *State
@@ -466,6 +468,18 @@ func (ex *Exec) funcRefOf(v Value) *Term {
 	ex.funcVals[name] = v
 	ex.funcRefs[v] = t
 	return t
+}
+
+// addrRefOf: a first-class reference standing for an interior address (used when &x.f is boxed into an interface).
+func (ex *Exec) addrRefOf(a *Addr) *Term {
+	if ex.addrVals == nil {
+		ex.addrVals = map[string]*Addr{}
+	}
+	ex.vc.nfresh++
+	name := fmt.Sprintf("addrval!%d", ex.vc.nfresh)
+	ex.vc.decls = append(ex.vc.decls, fmt.Sprintf("(declare-const %s Int)", name), fmt.Sprintf("(assert (> %s 0))", name))
+	ex.addrVals[name] = a
+	return Sym(name, SInt)
 }
 
 func (ex *Exec) store(st *State, p Value, elem types.Type, v Value) {
